@@ -1146,6 +1146,47 @@ static void identity_checks(const Canvas& dm, const Image& img, uint64_t cseed, 
   };
   C->crumb_n("identity", (uint64_t)dm.w, (uint64_t)dm.h, (uint64_t)dm.cw, dm.alpha, cseed);
   Canvas t;
+  // A copy must BEHAVE like the original, not only hold the same bytes: invert (maximum - v) and the implied alpha
+  // of read_pixel depend on the channel maximum, which has no getter.  x is restored (invert twice).
+  // Reference = what the ORIGINAL object itself does (inverted in place and restored), so that a defect of invert()
+  // is not blamed on the copy; invert() itself is judged against the model elsewhere.
+  Canvas inv_expect = dm;
+  {
+    Op oi;
+    oi.kind = K_INVERT;
+    apply_model(oi, inv_expect, inv_expect, nullptr, nullptr);  // only for the ANY flags (values above the maximum)
+    Image& orig = const_cast<Image&>(img);
+    orig.invert();
+    Canvas real_inv;
+    snapshot(orig, real_inv);
+    orig.invert();
+    if (real_inv.v.size() == inv_expect.v.size()) inv_expect.v = real_inv.v;
+  }
+  auto behaves_like_original = [&](Image& x, const char* how) {
+    C->evaluations++;
+    vf::poison_errno();
+    bool bad = false;
+    string detail;
+    if (!dm.alpha && dm.w && dm.h) {
+      uint64_t a = 0;
+      x.read_pixel(0, 0, nullptr, nullptr, nullptr, &a);
+      if (a != dm.maxv) { bad = true; detail = fmt("read_pixel implied alpha %" PRIx64 ", original's maximum %" PRIx64, a, dm.maxv); }
+    }
+    x.invert();
+    Canvas got;
+    snapshot(x, got);
+    if (format_matches(x, dm))
+      for (size_t pi = 0; pi < inv_expect.fl.size() && !bad; pi++) {
+        if (inv_expect.fl[pi] == ANY) continue;
+        if (memcmp(&got.v[pi * dm.nch], &inv_expect.v[pi * dm.nch], sizeof(uint64_t) * dm.nch)) {
+          bad = true;
+          detail = fmt("after invert() pixel #%zu is %s, the original would give %s", pi, px_str(&got.v[pi * dm.nch], dm.nch).c_str(), px_str(&inv_expect.v[pi * dm.nch], dm.nch).c_str());
+        }
+      }
+    x.invert();
+    if (bad) C->violation(string("copy:behaves-differently:") + how + ":" + wtag(dm), "a copy does not behave like the original (channel maximum not carried over): " + detail,
+        canvas_str(dm) + fmt(" maxval=%" PRIx64 " content_seed=%" PRIu64, dm.maxv, cseed));
+  };
   {
     Image c(img);
     C->evaluations++;
@@ -1153,6 +1194,7 @@ static void identity_checks(const Canvas& dm, const Image& img, uint64_t cseed, 
     snapshot(c, t);
     if (!format_matches(c, dm) || t.v != dm.v) ident_violation("copy:differs:ctor", "copy differs from the original", dm, cseed);
     if (!(c == img) || (c != img)) ident_violation("copy:operator==", "copy does not compare equal", dm, cseed);
+    behaves_like_original(c, "ctor");
     c.reverse_horizontal();
     c.reverse_horizontal();
     snapshot(c, t);
@@ -1204,6 +1246,7 @@ static void identity_checks(const Canvas& dm, const Image& img, uint64_t cseed, 
     C->evaluations++;
     snapshot(a, t);
     if (!format_matches(a, dm) || t.v != dm.v) ident_violation("copy:differs:assign", "copy-assigned image differs", dm, cseed);
+    behaves_like_original(a, "assign-into-empty");
     if (dm.w && dm.h) {
       a.write_pixel(r.below(dm.w), r.below(dm.h), 0x5A, 0xA5, 0x3C, 0x77);
       a.fill_rect(0, 0, dm.w, dm.h, 1, 2, 3, 0xFF);
@@ -1213,6 +1256,7 @@ static void identity_checks(const Canvas& dm, const Image& img, uint64_t cseed, 
     b = img;  // copy assignment over an existing buffer of another format
     snapshot(b, t);
     if (!format_matches(b, dm) || t.v != dm.v) ident_violation("copy:differs:assign", "copy-assigned image differs", dm, cseed);
+    behaves_like_original(b, "assign-over-other-format");
     b.invert();
     orig_intact("assign");
     b.invert();
@@ -1220,12 +1264,14 @@ static void identity_checks(const Canvas& dm, const Image& img, uint64_t cseed, 
     C->evaluations++;
     snapshot(m, t);
     if (!format_matches(m, dm) || t.v != dm.v) ident_violation("copy:differs:move", "moved-to image differs", dm, cseed);
+    behaves_like_original(m, "move-ctor");
     // a moved-from image may be empty or hold some other buffer, but must not alias the moved-to one
     if (b.get_data() != nullptr && b.get_data() == m.get_data()) ident_violation("copy:move-shares-storage", "moved-from image still refers to the moved-to buffer", dm, cseed);
     Image m2(1, 1);
     m2 = std::move(m);
     snapshot(m2, t);
     if (!format_matches(m2, dm) || t.v != dm.v) ident_violation("copy:differs:move", "move-assigned image differs", dm, cseed);
+    behaves_like_original(m2, "move-assign");
     m2.invert();
     orig_intact("move");
   }
@@ -1308,7 +1354,7 @@ static void check_format_op(int what, int arg, Canvas& dm, Image& img, uint64_t 
     if (what == 0) img.set_channel_width((uint8_t)arg);
     else if (what == 1) img.set_has_alpha(arg != 0);
     else if (what == 2) { Image c(img); img = std::move(c); }
-    else { Image c; c = img; Image d2(2, 1, !dm.alpha, dm.cw == 8 ? 16 : 8); d2 = c; img = d2; }
+    else { Image c; c = img; Image d2(2, 1, !dm.alpha, dm.cw == 8 ? 16 : 8); d2 = c; img = std::move(d2); }  // the assigned-to object lives on
   } catch (const std::exception& e) {
     threw = e.what();
   }
